@@ -26,10 +26,33 @@ def roots(tier):
             for layers in (3,) if tier == "quick" else (3, 4):
                 for pz in (False, True):
                     out.append((name, ("slab", m, layers, pz)))
+    # slabs with exactly 3 / 4 ATOMIC layers from the dedicated ASE builders (the other reading of "3-4 layers")
+    thin = {"fcc": ("fcc100", "fcc110", "fcc111"), "bcc": ("bcc100", "bcc110", "bcc111"), "hcp": ("hcp0001",), "diamond": ("diamond100", "diamond111")}
+    for name in materials(tier):
+        _, kind = catalog.conventional(name)
+        for b in thin.get(kind, ()):
+            for nl in (3,) if tier == "quick" else (3, 4):
+                for pz in (False,) if tier == "quick" else (False, True):
+                    out.append((name, ("thin", b, nl, pz)))
     return out
 
 
+def thin_slab(name, builder, nl, pz):
+    import ase.build
+
+    fn = getattr(ase.build, builder)
+    one = fn(name, size=(1, 1, nl), vacuum=7.0)
+    c = np.array(one.get_cell())
+    ha = np.linalg.norm(np.cross(c[0], c[1])) / np.linalg.norm(c[1])
+    hb = np.linalg.norm(np.cross(c[0], c[1])) / np.linalg.norm(c[0])
+    s = fn(name, size=(int(np.ceil(12.5 / ha)), int(np.ceil(12.5 / hb)), nl), vacuum=7.0)
+    s.set_pbc([True, True, bool(pz)])
+    return s
+
+
 def build(name, variant):
+    if variant[0] == "thin":
+        return thin_slab(name, variant[1], variant[2], variant[3]), 2
     if variant[0] == "bulk":
         return catalog.bulk_supercell(name), 3
     _, m, layers, pz = variant
